@@ -67,10 +67,12 @@ def inline_stream(case):
     try:
         with open(c['stream'], 'rb') as f:
             c['stream_hex'] = f.read().hex()
+        c['stream'] = 'inline'   # the scratch path carries the process id: keep it out of the case so replay names are reproducible
         for o in c.get('transport') or []:
             if o.get('path'):
                 with open(o['path'], 'rb') as f:
                     o['path_hex'] = f.read().hex()
+                o['path'] = 'inline'
     except OSError:
         pass
     return c
@@ -581,6 +583,21 @@ def c16_crash_site(c, r, v):
     ph = c.get('_phase', '?')
     return '%s|fault_in_%s' % (v.site, ph)
 
+# generic allocation/OS-object helpers: the function that *uses* them is the one whose error handling is at stake
+_ALLOC_HELPERS = ('svt_create_mutex@', 'svt_create_semaphore@', 'svt_create_thread@', 'svt_create_cond_var@', 'svt_aom_malloc@', 'svt_aom_memalign@', 'svt_aom_calloc@', 'svt_aom_memset16@')
+def fault_fn(r):
+    """library function that asked for the resource the simulator refused (innermost non-helper frame of the SIMFAULT provenance)"""
+    fr = core.fault_frames(r)
+    for f in fr:
+        if not f.startswith(_ALLOC_HELPERS):
+            return re.sub(r'\.(isra|constprop|part|cold)\.\d+', '', f)
+    return re.sub(r'\.(isra|constprop|part|cold)\.\d+', '', fr[0]) if fr else 'unknown'
+
+def dec_crash_site(r, v):
+    # the decoder drops the error of its frame-time allocators, so where it later crashes is incidental: the root cause is the
+    # allocating function whose failure is not propagated (DESIGN.md 13.5)
+    return '%s|fault_in_decoder|alloc@%s' % (v.site, fault_fn(r))
+
 @check('C16')
 def check_c16(tier, seed):
     ck = Check('C16', tier, seed, level='fault_enumeration')
@@ -660,7 +677,7 @@ def check_c16(tier, seed):
                 errs = [e for e in r.get('history', []) if e[1] != 0]
                 if not errs: vs.append(Violation('C16', 'ORACLE', 'dec_fault_swallowed', 'decoder: allocation #%d failed but every API call returned success' % c['mem']['alloc_fail_at'], inline_stream(c), variant))
             for v in relabel(single_violations(c, r, variant), 'C16', ('TERM', 'CRASH')):
-                v.site = v.site + '|fault_in_decoder'; v.case = inline_stream(v.case); vs.append(v)
+                v.site = dec_crash_site(r, v); v.case = inline_stream(v.case); vs.append(v)
             for v in vs: ck.add(v, 'single16dec')
         enumerated += len(cases)
     ck.ev.extra['K_total'] = total_k; ck.ev.extra['faults_enumerated'] = enumerated
@@ -678,7 +695,7 @@ def eval_single16dec(cases, variant):
             if L.get('threads_created') != L.get('threads_joined'): vs.append(Violation('C16', 'ORACLE', 'dec_threads_after_failed_alloc', 'threads', c0, variant))
             if not [e for e in r.get('history', []) if e[1] != 0]: vs.append(Violation('C16', 'ORACLE', 'dec_fault_swallowed', 'decoder: allocation #%d failed but every API call returned success' % c['mem']['alloc_fail_at'], c0, variant))
         for v in relabel(single_violations(c, r, variant), 'C16', ('TERM', 'CRASH')):
-            v.site = v.site + '|fault_in_decoder'; v.case = c0; vs.append(v)
+            v.site = dec_crash_site(r, v); v.case = c0; vs.append(v)
     return vs, rs
 
 # ---- C17 ----------------------------------------------------------------------------------------------------
